@@ -185,6 +185,16 @@ def model_apply(m, op, st):
             st.count("probe.rename_mentioned")
         m.rename(op["id"], op["new"])
         return "ok"
+    if k == "reshape_edge":
+        rec = m.by_name(op["id"])
+        if rec is None or rec.rt != "E":
+            return "skip"
+        m.remove([rec])
+        if m.add_text(op["line"]) != "ok":
+            m.unspecified = "model refuses the edited edge"
+            return "any"
+        st.count("probe.edge_reshaped")
+        return "ok"
     if k in ("set_tag", "del_tag"):
         rec = m.by_name(op["id"]) if "id" in op else m.find(op["text"])
         if rec is None:
